@@ -55,3 +55,6 @@ pub use milp_solver::*;
 #[cfg(any(feature = "scip", feature = "scip_bundled"))]
 pub use scip::solve_lp_problem_scip;
 pub use simplex::*;
+
+#[cfg(all(rooc_verif, feature = "microlp"))]
+pub use milp_solver::verif_hooks as milp_verif_hooks;
